@@ -299,6 +299,9 @@ func TestVerifC13Load(t *testing.T) {
 		}
 	}
 
+	// Large files (c13_loadlarge_test.go).
+	c13LoadLarge(t, rep, last)
+
 	// Write faults while the upgraded file is stored (c13_loadfault_test.go).
 	c13LoadFaults(t, rep, docs, last)
 
